@@ -46,6 +46,8 @@ type Contract struct {
 	Trusted bool // contract assumed, body not checked
 	Inert   bool // no heap effect
 	Safety  bool
+	Frame   bool // frame on: syntactic frame check is an obligation
+	OnlyContracts []string // if set: only these callees' contracts are used, all others are treated as uncontracted
 	Opaque  bool
 	Params  []Binder
 	Result  *TypeExpr // pred/fn result type (nil = bool)
@@ -327,6 +329,10 @@ func applyClause(c *Contract, kw, label, text, file string, line int) error {
 		c.Opaque = true
 	case "safety":
 		c.Safety = strings.TrimSpace(text) != "off"
+	case "only-contracts":
+		c.OnlyContracts = append(c.OnlyContracts, strings.Fields(strings.ReplaceAll(text, ",", " "))...)
+	case "frame":
+		c.Frame = strings.TrimSpace(text) != "off"
 	case "requires", "ensures":
 		cl, err := mkClause(label, text, file, line)
 		if err != nil {
